@@ -322,7 +322,10 @@ def run(ctx):
         made += 1
     ngram = 600 if quick else 6000
     for i in range(ngram):
-        add("grammar %d" % i, 'grammar', G.grammar_doc(rng, els, ats, 10 + rng.below(60)).encode())
+        if i % 4 == 3:
+            add("grammar (filter) %d" % i, 'grammar', G.filter_doc(rng).encode())
+        else:
+            add("grammar %d" % i, 'grammar', G.grammar_doc(rng, els, ats, 10 + rng.below(60)).encode())
     ntext = 1500 if quick else 15000
     for i in range(ntext):
         add("text structure %d" % i, 'text', G.text_doc(rng).encode())
